@@ -571,7 +571,7 @@ fn main() {
     for _ in 0..bud(150, 5000) { cs_write_case(&mut o, counter(&mut r, true)); let n = r.below(11) as usize; let b = r.bytes(n); cs_read_case(&mut o, &b); }
 
     // node / entry codecs
-    let nc = bud(40, 1500);
+    let nc = bud(40, 600);
     codec_cases::<V1>(&mut o, &mut r, nc);
     codec_cases::<V2>(&mut o, &mut r, nc);
     codec_cases::<V3>(&mut o, &mut r, nc);
@@ -584,7 +584,7 @@ fn main() {
     }
 
     // combine: mostly fitting, some on the overflow boundary, some with different branch ids
-    for i in 0..bud(90, 3000) {
+    for i in 0..bud(90, 1500) {
         let ext = i % 3 == 0;
         macro_rules! go { ($v:ty, $k:expr) => {{
             let l = norm($k, leaf(&mut r, 3, 10, ext));
@@ -603,12 +603,12 @@ fn main() {
     catch(|| exhaustive_views::<V1>(&mut o, &mut r, ex, true));
     catch(|| exhaustive_views::<V2>(&mut o, &mut r, if big { ex } else { 17 }, ex <= 40));
     catch(|| exhaustive_views::<V3>(&mut o, &mut r, ex, big));
-    for i in 0..bud(24, 1500) {
+    for i in 0..bud(24, 400) {
         let ext = i % 4 == 0;
         let m = 2 + r.below(22) as usize;
         match i % 3 { 0 => { catch(|| history::<V1>(&mut o, &mut r, true, m, ext, i % 2 == 0)); }, 1 => { catch(|| history::<V2>(&mut o, &mut r, true, m, ext, i % 2 == 0)); }, _ => { catch(|| history::<V3>(&mut o, &mut r, true, m, ext, i % 2 == 0)); } }
     }
-    for i in 0..bud(3, 300) {
+    for i in 0..bud(3, 36) {
         let m = if big { *r.pick(&[70usize, 130, 260, 300, 520]) } else { [300usize, 130, 70][i % 3] };
         match i % 3 { 0 => { catch(|| history::<V1>(&mut o, &mut r, false, m, false, false)); }, 1 => { catch(|| history::<V2>(&mut o, &mut r, false, m, false, false)); }, _ => { catch(|| history::<V3>(&mut o, &mut r, false, m, i % 2 == 0, false)); } }
     }
